@@ -256,6 +256,18 @@ func (tr *trans) unop(x *ssa.UnOp, st State) {
 			// a plain receive from a closed channel yields the zero value; we do not distinguish
 			tr.vc.assume(okn)
 		}
+		// element invariant of the channel assumed by the contract (a contract of the producer)
+		if tr.fc != nil {
+			src := tr.sourceNameOf(x.X)
+			for _, it := range tr.fc.Items {
+				if it.Kind == "recvinv" && it.Name == src {
+					env := tr.funcEnv(st)
+					env.vars["elem"] = env.goSV(vn, et)
+					tr.vc.assume(implies(okn, env.elabBool(it.E)))
+					tr.note("values received from channel " + src + " in " + tr.key + " satisfy the declared element invariant (contract of the producer, assumed)")
+				}
+			}
+		}
 		nAll := tr.getState(st, cnN)
 		atAll := tr.getState(st, cnAt)
 		n := sel(nAll, ch)
@@ -723,6 +735,17 @@ func (tr *trans) ret(x *ssa.Return, st State) {
 				label = fmt.Sprintf("%d", n)
 			}
 			tr.oblige("post", fmt.Sprintf("[%s]@ret%d", label, k), implies(reach, env.elabBool(it.E)), x.Pos())
+		case "check":
+			// a postcondition over the function's local variables at the return point (not visible to callers)
+			n++
+			label := it.Label
+			if label == "" {
+				label = fmt.Sprintf("%d", n)
+			}
+			cenv := *env
+			blk := tr.curB
+			cenv.lookup = func(name string) (SV, bool) { return tr.varAtEnd(blk, name, st) }
+			tr.oblige("check", fmt.Sprintf("[%s]@ret%d", label, k), implies(reach, cenv.elabBool(it.E)), x.Pos())
 		}
 	}
 	tr.frameObligations(st, k, x.Pos())
@@ -917,4 +940,29 @@ func (tr *trans) recvVars(et types.Type) (string, string) {
 	tr.stateSort[n] = "(Array Int Int)"
 	tr.stateSort[at] = "(Array Int (Array Int " + tr.vc.sortOf(et) + "))"
 	return n, at
+}
+
+// sourceNameOf: the source-level variable name bound to an SSA value (through debug references).
+func (tr *trans) sourceNameOf(v ssa.Value) string {
+	if p, ok := v.(*ssa.Parameter); ok {
+		return p.Name()
+	}
+	if u, ok := v.(*ssa.UnOp); ok {
+		if fv, ok := u.X.(*ssa.FreeVar); ok {
+			return fv.Name()
+		}
+		if al, ok := u.X.(*ssa.Alloc); ok {
+			return al.Comment
+		}
+	}
+	for _, b := range tr.fn.Blocks {
+		for _, in := range b.Instrs {
+			if d, ok := in.(*ssa.DebugRef); ok && d.X == v && !d.IsAddr {
+				if obj := d.Object(); obj != nil {
+					return obj.Name()
+				}
+			}
+		}
+	}
+	return v.Name()
 }
